@@ -19,6 +19,10 @@ PROPS["C16"] = {
         for s in (1, 2, 4, 8, 16, 32)
     ] + [
         R("ring-new", "pkg/ringbuffer", "pkg/ringbuffer", ["ZzC16New"], flags={"workers": 4}),
+    ] + [
+        R("processor-size%d" % s, "internal/asyncprocessor", "internal/asyncprocessor", ["ZzC16Processor"], flags={"allow": "blocked", "workers": 4}, params={"SIZE": s},
+          tiers=("quick", "thorough") if s <= 4 else ("thorough",))
+        for s in (1, 2, 4, 8)
     ],
     "parallel": 4,
     "assumptions": [
@@ -38,11 +42,15 @@ CODECS_GEN = [
 ]
 CODECS_SLOW = [("rtpmpeg1video", "MPEG1Video")]
 
-def codec_runs(prefix, suffix="", quick=None, thorough=None, extra_entries=None, flags=None):
+def ST(pkg):
+    """overlay of the state-dependent harness file (names unexported decoder fields)"""
+    return {"pkg/format/" + pkg: "pkg/format/" + pkg + "/state"}
+
+def codec_runs(prefix, suffix="", quick=None, thorough=None, extra_entries=None, flags=None, state=False):
     runs = []
     for pkg, name in CODECS_GEN:
         ents = [prefix + name + suffix] + (extra_entries or {}).get(pkg, [])
-        runs.append(R(pkg[3:], "pkg/format/" + pkg, "pkg/format/" + pkg, ents, flags=dict(flags or {}),
+        runs.append(R(pkg[3:], "pkg/format/" + pkg, "pkg/format/" + pkg, ents, flags=dict(flags or {}), extras=ST(pkg) if state else {},
                       quick_params=(quick or {}).get(pkg, (quick or {}).get("*", {})),
                       thorough_params=(thorough or {}).get(pkg, (thorough or {}).get("*", {}))))
     return runs
@@ -63,6 +71,10 @@ _M4A = [
       params={"SL": cfg[0], "IL": cfg[1], "IDL": cfg[2]}, quick_params={"K": 1, "P": 10}, thorough_params={"K": 2, "P": 10, "N": 3},
       tiers=("quick", "thorough") if cfg == (13, 3, 3) else ("thorough",))
     for cfg in [(13, 3, 3), (6, 2, 2)]
+] + [
+    # index-length and index-delta-length differ (an fmtp line may give only one of them)
+    R("mpeg4audio-6-0-2", "pkg/format/rtpmpeg4audio", "pkg/format/rtpmpeg4audio", ["ZzC03C06MPEG4Audio"], params={"SL": 6, "IL": 0, "IDL": 2, "K": 1, "P": 4, "N": 3, "MLO": 8, "MHI": 12}),
+    R("mpeg4audio-6-2-0", "pkg/format/rtpmpeg4audio", "pkg/format/rtpmpeg4audio", ["ZzC03C06MPEG4Audio"], params={"SL": 6, "IL": 2, "IDL": 0, "K": 1, "P": 2, "N": 6, "MLO": 14, "MHI": 18}),
 ]
 _MISC = [
     R("lpcm-%d-%d" % (d, c), "pkg/format/rtplpcm", "pkg/format/rtplpcm", ["ZzC03C06LPCM"], params={"DEPTH": d, "CH": c},
@@ -73,24 +85,54 @@ _MISC = [
     R("simpleaudio", "pkg/format/rtpsimpleaudio", "pkg/format/rtpsimpleaudio", ["ZzC03C06SimpleAudio"]),
     R("mpegts", "pkg/format/rtpmpegts", "pkg/format/rtpmpegts", ["ZzC03C06MPEGTS"], quick_params={"N": 3, "K": 1}, thorough_params={"N": 4, "K": 1, "MHI": 800}),
 ]
-PROPS["C03"]["runs"] += _M4A + _MISC
-PROPS["C06"]["runs"] += _M4A + _MISC
+# MPEG-1 audio / AC-3: groups of audio frames whose lengths are fixed by the
+# codec header tables; three regimes each (fragmented / exactly one packet / aggregated)
+_AUD = [
+    R("mpeg1audio-frag", "pkg/format/rtpmpeg1audio", "pkg/format/rtpmpeg1audio", ["ZzC03C06MPEG1Audio"], params={"N": 1, "P": 60, "MLO": 30, "MHI": 32, "COV1": 0},
+      thorough_params={"MLO": 24, "MHI": 36, "K": 2}),
+    R("mpeg1audio-single", "pkg/format/rtpmpeg1audio", "pkg/format/rtpmpeg1audio", ["ZzC03C06MPEG1Audio"], params={"N": 1, "P": 53, "MLO": 51, "MHI": 54},
+      thorough_params={"MLO": 50, "MHI": 58}),
+    R("mpeg1audio-agg", "pkg/format/rtpmpeg1audio", "pkg/format/rtpmpeg1audio", ["ZzC03C06MPEG1Audio"], params={"N": 2, "P": 49, "MLO": 100, "MHI": 101},
+      thorough_params={"MLO": 98, "MHI": 103}, tiers=("thorough",)),
+    R("ac3-frag", "pkg/format/rtpac3", "pkg/format/rtpac3", ["ZzC03C06AC3"], params={"N": 1, "P": 140, "MLO": 40, "MHI": 41, "COV1": 0},
+      thorough_params={"MLO": 36, "MHI": 44}),
+    R("ac3-single", "pkg/format/rtpac3", "pkg/format/rtpac3", ["ZzC03C06AC3"], params={"N": 1, "P": 130, "MLO": 129, "MHI": 132},
+      thorough_params={"P": 140, "MLO": 128, "MHI": 144}),
+    R("ac3-agg", "pkg/format/rtpac3", "pkg/format/rtpac3", ["ZzC03C06AC3"], params={"N": 2, "P": 128, "MLO": 257, "MHI": 259}, tiers=("thorough",)),
+]
+_M1V_Q = {"K": 1, "N": 2, "P": 8, "MLO": 6, "MHI": 9}
+_M1V_T = {"K": 2, "N": 2, "P": 8, "MLO": 6, "MHI": 13}
+PROPS["C03"]["runs"] += _M4A + _MISC + _AUD + [
+    R("mpeg1video", "pkg/format/rtpmpeg1video", "pkg/format/rtpmpeg1video", ["ZzC03MPEG1Video"], quick_params=_M1V_Q, thorough_params=_M1V_T)]
+PROPS["C06"]["runs"] += _M4A + _MISC + _AUD + [
+    R("mpeg1video", "pkg/format/rtpmpeg1video", "pkg/format/rtpmpeg1video", ["ZzC06MPEG1Video"], quick_params=_M1V_Q, thorough_params=_M1V_T)]
 PROPS["C07"] = {
     "level_text": "Inductive resynchronisation: from an ARBITRARY decoder pre-state (all internal fields symbolic within a small shape, constrained only by the accounting invariant) an intact frame A then an intact frame B are fed; B must come back intact exactly once at its last packet (H264: no later than the first packet of the following frame) with only 'more packets needed' before, and the invariant must be re-established. Any loss/duplication/reordering history leaves the decoder in some such state, so one verdict covers fault sequences of every length. H264, H265, AV1, VP8, VP9, fragmented, KLV.",
     "level_note": 'Trusted: the representation invariant of each decoder (Appendix A of DESIGN.md); pre-state shapes are small (<=2 pending fragments of <=3 bytes, <=1 buffered unit). Outside: MPEG-4 audio, MPEG-1 audio/video, AC-3, M-JPEG; explicit drop/dup/swap enumeration (covered through the inductive state).',
-    "runs": codec_runs("ZzC07", quick={"*": {"P": 5}, "rtpvp9": {"P": 14, "MHI": 13}, "rtpklv": {"P": 20, "MHI": 18}}, thorough={"*": {}}),
+    "runs": codec_runs("ZzC07", state=True, quick={"*": {"P": 5}, "rtpvp9": {"P": 14, "MHI": 13}, "rtpklv": {"P": 20, "MHI": 18}}, thorough={"*": {}}),
 }
+for _r in PROPS["C07"]["runs"]:
+    if _r["name"] in ("h264", "h265", "av1"):
+        _r["params"]["NBUF"] = 1  # 0 or 1 buffered unit here; counts at the documented maximum in the -nearcap runs
 PROPS["C07"]["runs"] += [
+    R(c + "-nearcap", "pkg/format/rtp" + c, "pkg/format/rtp" + c, ["ZzC07" + c.upper()], params={"NBUFLO": 2, "NBUF": 3}, extras=ST("rtp" + c),
+      quick_params={"P": 3}, thorough_params={"P": 5})
+    for c in ("h264", "h265", "av1")
+] + [
+    R("mpeg1video", "pkg/format/rtpmpeg1video", "pkg/format/rtpmpeg1video", ["ZzC07MPEG1Video"], extras=ST("rtpmpeg1video"), quick_params={"N": 1, "P": 8, "MLO": 5, "MHI": 8}, thorough_params={"N": 1, "P": 10, "MLO": 5, "MHI": 12}),
+    R("mpeg1audio", "pkg/format/rtpmpeg1audio", "pkg/format/rtpmpeg1audio", ["ZzC07MPEG1Audio"], extras=ST("rtpmpeg1audio"), params={"N": 1, "P": 53, "MLO": 30, "MHI": 31, "COV1": 0},
+      thorough_params={"MLO": 28, "MHI": 33}),
+    R("ac3", "pkg/format/rtpac3", "pkg/format/rtpac3", ["ZzC07AC3"], extras=ST("rtpac3"), params={"N": 1, "P": 130, "MLO": 40, "MHI": 41, "COV1": 0}, thorough_params={"MLO": 38, "MHI": 43}),
     R("mpeg4audio", "pkg/format/rtpmpeg4audio", "pkg/format/rtpmpeg4audio", ["ZzC07MPEG4Audio"], params={"SL": 13, "IL": 3, "IDL": 3},
       quick_params={"P": 5, "MHI": 8}, thorough_params={"P": 6, "MHI": 10}),
 ]
 PROPS["C08"] = {
     "level_text": 'Hostile packets: K arbitrary packets (payload 0..P fully symbolic, any header) from Init through the real decoders: no panic, no loop beyond the unwinding bound, returned frames within the documented maximum, returned buffers never written by later calls (write monitor + native compare), accounting invariant after every call; plus one inductive step at the REAL size caps with length-only buffers (VP8, VP9, AV1, fragmented, KLV).',
     "level_note": 'Outside: M-JPEG, MPEG-4 audio, MPEG-1 audio/video, AC-3 decoders (not yet carried); inductive cap step for H264/H265 (solver timeouts on length-only data, dropped rather than weakened); heap measured as reachable slice lengths.',
-    "runs": codec_runs("ZzC08", "Hist", quick={"*": {}, "rtpvp9": {"K": 2, "P": 5}}, thorough={"*": {"K": 3}, "rtpvp9": {"K": 2, "P": 8}},
+    "runs": codec_runs("ZzC08", "Hist", state=True, quick={"*": {}, "rtpvp9": {"K": 2, "P": 5}}, thorough={"*": {"K": 3}, "rtpvp9": {"K": 2, "P": 8}},
                        extra_entries={"rtpklv": ["ZzC08KLVInd"], "rtpfragmented": ["ZzC08FragmentedInd"], "rtpvp8": ["ZzC08VP8Ind"],
                                       "rtpvp9": ["ZzC08VP9Ind"], "rtpav1": ["ZzC08AV1Ind"]})
-    + [R("mpeg1video", "pkg/format/rtpmpeg1video", "pkg/format/rtpmpeg1video", ["ZzC08MPEG1VideoHist", "ZzC08MPEG1VideoInd"], flags={"allow": "unwind"})],
+    + [R("mpeg1video", "pkg/format/rtpmpeg1video", "pkg/format/rtpmpeg1video", ["ZzC08MPEG1VideoHist", "ZzC08MPEG1VideoInd"], flags={"allow": "unwind"}, extras=ST("rtpmpeg1video"))],
 }
 
 # ---------------------------------------------------------------- C09
@@ -119,9 +161,9 @@ PROPS["C09"] = {
 }
 
 PROPS["C08"]["runs"] += [
-    R("mpeg1audio-hostile", "pkg/format/rtpmpeg1audio", "pkg/format/rtpmpeg1audio", ["ZzC08MPEG1AudioHist"], quick_params={"K": 1, "P": 60}, thorough_params={"K": 2, "P": 60}),
-    R("ac3-hostile", "pkg/format/rtpac3", "pkg/format/rtpac3", ["ZzC08AC3Hist"], quick_params={"K": 1, "P": 136}, thorough_params={"K": 2, "P": 136}),
-    R("mjpeg-hostile", "pkg/format/rtpmjpeg", "pkg/format/rtpmjpeg", ["ZzC08MJPEGHist"], quick_params={"K": 1, "P": 14}, thorough_params={"K": 2, "P": 14}),
+    R("mpeg1audio-hostile", "pkg/format/rtpmpeg1audio", "pkg/format/rtpmpeg1audio", ["ZzC08MPEG1AudioHist"], extras=ST("rtpmpeg1audio"), quick_params={"K": 1, "P": 60}, thorough_params={"K": 2, "P": 60}),
+    R("ac3-hostile", "pkg/format/rtpac3", "pkg/format/rtpac3", ["ZzC08AC3Hist"], extras=ST("rtpac3"), quick_params={"K": 1, "P": 136}, thorough_params={"K": 2, "P": 136}),
+    R("mjpeg-hostile", "pkg/format/rtpmjpeg", "pkg/format/rtpmjpeg", ["ZzC08MJPEGHist"], extras=ST("rtpmjpeg"), quick_params={"K": 1, "P": 14}, thorough_params={"K": 2, "P": 14}),
     R("ptsequalsdts", "pkg/format", "pkg/format", ["ZzC08PTSEqualsDTS"], quick_params={"P": 12}, thorough_params={"P": 24}),
     R("lpcm-hostile", "pkg/format/rtplpcm", "pkg/format/rtplpcm", ["ZzC08LPCM"]),
     R("simpleaudio-hostile", "pkg/format/rtpsimpleaudio", "pkg/format/rtpsimpleaudio", ["ZzC08SimpleAudio"]),
